@@ -82,7 +82,8 @@ def e_step(data, means):
         The zero-th order statistics.
     first_order_statistics : array-like, shape (n_samples, n_clusters)
         The first order statistics.
-    avg_min_dist : float
+    sum_min_dist : float
+        The sum over the data points of the distance to the closest center.
     """
     n_clusters = len(means)
     distances = get_centroids_distance(data, means)
@@ -95,11 +96,14 @@ def e_step(data, means):
     for i in range(n_clusters):
         first_order_statistics[i] = np.sum(data[closest_k_indices == i], axis=0)
     min_distance = np.min(distances, axis=0)
-    average_min_distance = min_distance.mean()
+    # Return the sum (not the mean) over this chunk of data, so that m_step,
+    # which divides by the total number of samples, yields the true average
+    # whatever the number and the sizes of the chunks.
+    sum_min_distance = min_distance.sum()
     return (
         zeroeth_order_statistics,
         first_order_statistics,
-        average_min_distance,
+        sum_min_distance,
     )
 
 
